@@ -154,6 +154,7 @@ func runGateEnum(rc *RunCtx, prop string) {
 	broker := idx%2 == 0
 	seq, ok := decodeSeq(idx/2, len(gateEnumAlphabet), depth)
 	if !ok {
+		rc.Stat("probe.enum.exhausted", 1) // every history of the enumeration has had its turn
 		runGateSeqOps(rc, prop, nil, false)
 		return
 	}
